@@ -649,6 +649,7 @@ def check_case(ctx: Ctx, c: dict):
         resolved_file = (method_cfg in ("file", "f")) or (method_cfg == "auto" and not c.get("ssh"))
         library_files = set()
         instances = {}     # name -> (ImageInstance, pool index at creation)
+        inst_version = {}  # name -> version of the (in-memory) pool image when the instance was made
         kd = DisplayK(ctx, c, cfg, terms, os.path.join(td, "s.db"), clock, thr, bool(c.get("ssh")))
 
         def on_transmit(spec, keys, payload):
@@ -726,6 +727,13 @@ def check_case(ctx: Ctx, c: dict):
                         st = os.stat(e["path"])
                         os.utime(e["path"], (st.st_atime, st.st_mtime + req.get("dt", 10)))
                     continue
+                if op == "touchmem":   # an in-memory image edited IN PLACE (same object, new pixels)
+                    e = pool[req["img"] % len(pool)]
+                    if e["image"] is not None:
+                        patch = U.noise_image(max(1, e["image"].size[0] // 2), max(1, e["image"].size[1] // 2), req["seed"], e["image"].mode)
+                        e["image"].paste(patch, (0, 0))
+                        e["version"] = e.get("version", 0) + 1
+                    continue
                 if op == "del":
                     inst = instances.get(req["inst"])
                     if inst is not None:
@@ -738,6 +746,12 @@ def check_case(ctx: Ctx, c: dict):
                     # the caller names the file relative to its working directory
                     os.chdir(e["cwd"])
                     arg = e["rel"]
+                if op in ("display_instance", "redisplay_instance", "redisplay_id") and req.get("inst") in instances:
+                    _pi = instances[req["inst"]][1]
+                    if pool[_pi].get("version", 0) != inst_version.get(req["inst"], 0):
+                        # the pixels the instance described no longer exist anywhere: nothing meaningful to request
+                        ctx.count("skipped:instance-of-edited-in-memory-image")
+                        continue
                 if op == "upload_and_display":
                     token, size, mode = _expected_token(e)
                     kr = dict(entry=e, display=True)
@@ -794,8 +808,11 @@ def check_case(ctx: Ctx, c: dict):
                     bound = None
                     for nm, (ii, pi, tok) in instances.items():
                         if ii.get_description() == inst.get_description():
-                            bound = (pi, tok)
+                            bound = (pi, tok, nm)
                     if bound is None:
+                        continue
+                    if pool[bound[0]].get("version", 0) != inst_version.get(bound[2], 0):
+                        ctx.count("skipped:instance-of-edited-in-memory-image")
                         continue
                     if pool[bound[0]]["image"] is not None:
                         inst.image = pool[bound[0]]["image"]   # in-memory images cannot be reloaded from a path
@@ -1055,8 +1072,14 @@ def cases(ctx: Ctx):
                 if rng.random() < 0.4:
                     q["force_upload"] = True
                 reqs.append(q)
-            elif r < 0.82:
+            elif r < 0.80:
                 reqs.append(dict(op="tick", seconds=rng.choice([1, 100, 4000])))
+            elif r < 0.87 and any(k.startswith("mem") for (k, *_r) in pool):
+                mi = rng.choice([i for i, (k, *_r) in enumerate(pool) if k.startswith("mem")])
+                if rng.random() < 0.7:
+                    reqs.append(dict(op="upload_and_display", t=t, img=mi, **geom))       # shown …
+                reqs.append(dict(op="touchmem", img=mi, seed=rng.randrange(1 << 30)))    # … edited in place …
+                reqs.append(dict(op="upload_and_display", t=t, img=mi, **geom))           # … shown again: must be the new pixels
             elif r < 0.9:
                 reqs.append(dict(op="touch", img=rng.randrange(len(pool)), w=rng.choice([6, 9]), h=rng.choice([6, 7]), seed=rng.randrange(1 << 30), dt=rng.choice([10, 1000])))
             else:
